@@ -3,7 +3,7 @@
    Every theorem quantifies over ALL runs r (all peer messages, configurations) and ALL
    oracle behaviours O (signature, Finished, binder, hash answers). *)
 From Coq Require Import ZArith List Bool String.
-From TV Require Import Base.Prelude Base.C05_Lib Gen.C05_VerifyBytes Gen.C05_Sites
+From TV Require Import Base.Prelude Base.C05_Lib Gen.C05_VerifyBytes Gen.C05_Sites Gen.C05_DsaVerify Model.C05_SigGuard
   Model.C05_Auth Model.C05_SitesExpected Proofs.C05_Auth Proofs.C05_Binding.
 Import ListNotations.
 Open Scope Z_scope.
@@ -203,6 +203,22 @@ Theorem f12_server_scheme_irrelevant_when_known : forall sch n1 n2 h1 h2,
   SignatureScheme_getHash (Some n1) = Ok h1 -> SignatureScheme_getHash (Some n2) = Ok h2 ->
   dispatch13_srv sch (Some n1) = dispatch13_srv sch (Some n2).
 Proof. exact dispatch13_srv_independent. Qed.
+
+(* the DSA verification that stands behind sig_ok at the DHE_DSA ServerKeyExchange and the TLS <= 1.2
+   DSA CertificateVerify sites (text regenerated from Python_DSAKey.verify from its range check on):
+   for EVERY behaviour of invMod / powMod an accepted (r, s) satisfies 0 < r < q and 0 < s < q and the
+   verification equation -- in particular the constant signature (r, s) = (1, 0) is never accepted *)
+Theorem dsa_signature_accepted_only_in_range :
+  forall (invMod : Z -> Z -> Z) (powMod : Z -> Z -> Z -> Z) p q g y d r s,
+  dsa_verify_tail invMod powMod p q g y d r s = true ->
+  0 < r < q /\ 0 < s < q /\
+  r = (((powMod g ((d * invMod s q) mod q) p) * (powMod y ((r * invMod s q) mod q) p)) mod p) mod q.
+Proof. exact dsa_tail_accept_in_range. Qed.
+
+Example dsa_toy_signature_accepted : dsa_verify_run 23 11 4 18 7 7 2 = true.
+Proof. vm_compute. reflexivity. Qed.
+Example dsa_r1_s0_rejected : dsa_verify_run 23 11 4 18 7 1 0 = false.
+Proof. vm_compute. reflexivity. Qed.
 
 (* ---- the hypotheses are satisfiable: honest runs are accepted and record the chain ------ *)
 Example honest_tls13_client : exists s, client13 (orc_const true) run0 = Ok s /\ s_server_chain s = Some [1].
